@@ -255,9 +255,10 @@ def r6(ctx):
                 if not (pl[0] == 'pfield' and pl[2] == 'sig'):
                     ctx.violate(b.key, p, 'future registers a signal that is not its own `sig` field', at=e.at)
                 regs = [x for x in evs if x.name == 'SIG.register_waker' and x.idx < e.idx and x.sec == e.sec]
-                if not regs:
+                if not regs and not sem.waker_kept(evs, e.idx):
+                    # (a stream that kept its signal may skip the registration when the stored waker already wakes this task)
                     ctx.violate(b.key, p, 'future registered without register_waker(cx.waker()) earlier in the same critical section', at=e.at)
-                else:
+                elif regs:
                     w = regs[-1].data['args'][1] if len(regs[-1].data['args']) > 1 else None
                     if w is None or not (w[0] == 'call' and w[2] == 'std::task::Context::waker'):
                         ctx.violate(b.key, p, 'registered waker is not cx.waker()', at=regs[-1].at)
